@@ -267,14 +267,17 @@ def plot_run(ctx, shape, kind, face="white"):
     global _CTX
     _CTX = ctx
     ax = Axes(face)
+    foreign = Axes("white")
     P = Obj("ploter")
 
     def hook(rn, ev, call, name, recv, args, kwargs):
         if name == "isinstance":
             names = isinstance_names(call, args)
             return any(n in ctx.model.mro(kind) for n in names) if args[0] is shape else True
-        if name == "gca" and recv is P:
-            return ax
+        if name == "gca":
+            # the plotter's own axes -- or, asked of anything else (pyplot), the axes that happen to be current: a
+            # second figure may have been opened since the plotter was built
+            return ax if recv is P else foreign
         if name == "path_shape":
             return ("fillpath", args[0].name)
         if name == "path_jordan":
@@ -285,6 +288,8 @@ def plot_run(ctx, shape, kind, face="white"):
             return Arr([tuple(map(float, p)) for p in args[0]])
         return NotImplemented
     Runner(ctx, set(), hook, asserts=True).call_fn(fn, [P, shape], {"kwargs": {}})
+    if foreign.calls:
+        return [("foreign-axes",) + tuple(c) for c in foreign.calls]        # drawn on axes that are not the plotter's
     return ax.calls
 
 
